@@ -105,6 +105,9 @@ class _SyncStreamConn:
             self.closed = True
         return self.sock.out, esc
 
+    def alive(self):
+        return not self.closed
+
     def close(self):
         try:
             self.h.finish()
@@ -131,6 +134,9 @@ class _SyncUdpConn:
             esc = errkind(e)
         h.finish()
         return sock.out, esc
+
+    def alive(self):
+        return True
 
     def close(self):
         pass
@@ -160,6 +166,7 @@ class _FakeTransport:
 class _AioConn:
     def __init__(self, kind, srv, loop):
         self.kind, self.loop = kind, loop
+        self.reported = False
 
         async def mk():
             cls = saio.ModbusConnectedRequestHandler if kind == 'aioTcp' else saio.ModbusDisconnectedRequestHandler
@@ -181,7 +188,16 @@ class _AioConn:
                 for _ in range(4):
                     await asyncio.sleep(0)
             return self.tr.out[n:]
-        return self.loop.run_until_complete(go()), None
+        out = self.loop.run_until_complete(go())
+        esc = None
+        t = self.h.handler_task
+        if t is not None and t.done() and not t.cancelled() and t.exception() is not None and not self.reported:
+            esc = errkind(t.exception())      # an exception ended the serving coroutine
+            self.reported = True
+        return out, esc
+
+    def alive(self):
+        return bool(self.h.running)
 
     def close(self):
         async def go():
@@ -214,12 +230,16 @@ class _TwistedTcpConn:
             return [], None
         self.tr.clear()
         esc = None
+        self.p.factory.control.ListenOnly = False     # listen-only mode (diagnostic sub-function 4) is outside the model
         try:
             self.p.dataReceived(bytes(chunk))
         except Exception as e:  # noqa
             esc = errkind(e)
         v = self.tr.value()
         return ([list(v)] if v else []), esc
+
+    def alive(self):
+        return not self.tr.disconnecting
 
     def close(self):
         pass
@@ -242,11 +262,15 @@ class _TwistedUdpConn:
     def feed(self, chunk):
         n = len(self.p.transport.out)
         esc = None
+        self.p.control.ListenOnly = False
         try:
             self.p.datagramReceived(bytes(chunk), ADDR)
         except Exception as e:  # noqa
             esc = errkind(e)
         return self.p.transport.out[n:], esc
+
+    def alive(self):
+        return True
 
     def close(self):
         pass
@@ -295,16 +319,18 @@ class Session:
 
 def run_schedule(kind, framer, single, units, ignore_missing, broadcast, nconns, schedule):
     """several connections sharing one datastore; schedule = list of (connection index, chunk).
-    Returns (per-step written frames, per-step escaped exception kind, final dumps per unit)"""
+    Returns (per-step written frames, per-step escaped exception kind, final dumps per unit, per-step "the connection is
+    still served afterwards")"""
     s = Session(kind, framer, single, units, ignore_missing, broadcast)
     try:
         ids = [s.open() for _ in range(nconns)]
-        outs, escs = [], []
+        outs, escs, alive = [], [], []
         for ci, ch in schedule:
             o, e = s.feed(ids[ci], ch)
             outs.append(o)
             escs.append(e)
-        return outs, escs, s.dumps()
+            alive.append(s.conns[ids[ci]].alive())
+        return outs, escs, s.dumps(), alive
     finally:
         s.close()
 
